@@ -8,7 +8,7 @@
       [who xc nm np]   the cross index of every progeny = numpy.repeat(arange(ncross), nmating * nprogeny);
       [from_founder geno fs h]   every allele of h sits at the same marker in a copy of a founder listed in fs. *)
 From Coq Require Import Permutation.
-From PV Require Import Lib.Common Model.C01_Meiosis Model.C01_Mating Proofs.C01_Meiosis Proofs.C01_Mating.
+From PV Require Import Lib.Common Model.C01_Meiosis Model.C01_Mating Model.C01_Kit Gen.C01_Kernel Proofs.C01_Meiosis Proofs.C01_Mating Proofs.C01_Kernel.
 Local Open Scope Z_scope.
 
 (** one meiosis product is a left-to-right mosaic of the two copies of the selected individual; the source copy changes
@@ -121,6 +121,84 @@ Theorem C01_mate_defined : forall p geno xoprob meta xc nmating nprogeny nself p
   exists x, mate p geno xoprob meta xc nmating nprogeny nself pc fc draws = Some x.
 Proof. exact mate_defined. Qed.
 Print Assumptions C01_mate_defined.
+
+(** KERNEL — the definitions regenerated from the CURRENT source on every run (Gen/C01_Kernel.v, by harness/translate/c01_kernel.py:
+    the crossover test, the pieces of the segment-copy loop, mat_dh / mat_mate / dense_dh / dense_cross, the statements of
+    each protocol's mate() from the parent-index expansion to the constructor call, the metadata hand-over, nparent, name
+    prefix and width) are the ones the model is made of; [mate_k] is mate() assembled from them *)
+Theorem C01_kernel_is_model :
+  (forall u p, k_mat_xo u p = Qltb u p) /\ (forall u p, k_dense_xo u p = Qltb u p) /\
+  (forall geno i s rnd xoprob, k_mat_gamete geno i s rnd xoprob = gamete_seg geno s rnd xoprob) /\
+  (forall geno i s rnd xoprob, k_dense_gamete geno i s rnd xoprob = gamete_seg geno s rnd xoprob) /\
+  (forall fg mg fs ms xo r, k_mat_mate fg mg fs ms xo r = mat_mate fg mg fs ms xo r) /\
+  (forall fg mg fs ms xo r, k_dense_cross fg mg fs ms xo r = mat_mate fg mg fs ms xo r) /\
+  (forall g s xo r, k_mat_dh g s xo r = mat_dh g s xo r) /\ (forall g s xo r, k_dense_dh g s xo r = mat_dh g s xo r) /\
+  (forall p geno xo xc nm np nself pc fc r, k_raw p geno xo xc nm np nself pc fc r = mate_raw p geno xo xc nm np nself pc fc r) /\
+  (forall p m, k_meta p m = progeny_meta m) /\ (forall p, k_nparent p = nparent p) /\ (forall p, k_prefix p = prefix p /\ k_width p = 7%nat) /\
+  (forall p geno xoprob meta xc nmating nprogeny nself pc fc draws,
+     mate_k p geno xoprob meta xc nmating nprogeny nself pc fc draws = mate p geno xoprob meta xc nmating nprogeny nself pc fc draws).
+Proof. exact kernel_is_model. Qed.
+Print Assumptions C01_kernel_is_model.
+
+(** the crossover test of the source, as regenerated: with draws in [0,1) it fires only where the probability is positive (never
+    at an exact 0) and always for a draw strictly below the probability (always at probability 1) — in both copies of the code *)
+Theorem C01_kernel_crossover_boundary : forall u p : Q,
+  ((0 <= u)%Q -> k_mat_xo u p = true -> (0 < p)%Q) /\ ((0 <= u)%Q -> k_dense_xo u p = true -> (0 < p)%Q) /\
+  ((u < p)%Q -> k_mat_xo u p = true) /\ ((u < p)%Q -> k_dense_xo u p = true).
+Proof. intros u p. exact (conj (k_mat_xo_positive u p) (conj (k_dense_xo_positive u p) (conj (k_mat_xo_fires u p) (k_dense_xo_fires u p)))). Qed.
+Print Assumptions C01_kernel_crossover_boundary.
+
+(** the segment-copy loop of the source, assembled from its regenerated index expressions, initialisations and updates, yields a
+    mosaic of the two copies of the selected individual that switches only where xoprob > 0 (mat_meiosis and dense_meiosis) *)
+Theorem C01_kernel_gamete_mosaic : forall geno i s rnd xoprob,
+  length (row geno 0 s) = length xoprob -> length (row geno 1 s) = length xoprob -> nonneg_row rnd ->
+  mosaic xoprob (row geno 0 s) (row geno 1 s) (k_mat_gamete geno i s rnd xoprob) /\
+  mosaic xoprob (row geno 0 s) (row geno 1 s) (k_dense_gamete geno i s rnd xoprob).
+Proof. exact k_gamete_mosaic. Qed.
+Print Assumptions C01_kernel_gamete_mosaic.
+
+(** MOSAIC, DH and METADATA stated about mate() as regenerated from the source *)
+Theorem C01_kernel_mosaic : forall p geno xoprob meta xc nmating nprogeny nself pc fc draws x,
+  mate_k p geno xoprob meta xc nmating nprogeny nself pc fc draws = Some x -> nonneg_draws draws ->
+  forall j, (j < length (p_taxa x))%nat ->
+  exists i, (i < length xc)%nat /\ nth j (p_grp x) 0 = fc + Z.of_nat i /\
+            realises geno xoprob (designated p (nth i xc []) nself) (indiv (p_mat x) j).
+Proof. exact mate_k_mosaic. Qed.
+Print Assumptions C01_kernel_mosaic.
+
+Theorem C01_kernel_dh_homozygous : forall p geno xoprob meta xc nmating nprogeny nself pc fc draws x,
+  mate_k p geno xoprob meta xc nmating nprogeny nself pc fc draws = Some x -> is_dh p = true ->
+  nth 0 (p_mat x) [] = nth 1 (p_mat x) [].
+Proof. exact mate_k_dh. Qed.
+Print Assumptions C01_kernel_dh_homozygous.
+
+Theorem C01_kernel_metadata : forall p m, k_meta p m = m.
+Proof. exact k_meta_id. Qed.
+Print Assumptions C01_kernel_metadata.
+
+(** SESSIONS — two consecutive mate() calls on one protocol object (whatever was replaced in between: matrix, probabilities, cross
+    table, counts, selfing depth, draws): the counters run on exactly, and every family label of the second call lies above every
+    family label of the first (the result of a call depends on the state at that call — [mate] is a function of it — and never
+    reuses names or labels of an earlier call) *)
+Theorem C01_session_counters : forall p g1 xo1 m1 xc1 nm1 np1 ns1 pc fc d1 x1 g2 xo2 m2 xc2 nm2 np2 ns2 d2 x2,
+  mate p g1 xo1 m1 xc1 nm1 np1 ns1 pc fc d1 = Some x1 -> nonneg_draws d1 ->
+  mate p g2 xo2 m2 xc2 nm2 np2 ns2 (p_pc x1) (p_fc x1) d2 = Some x2 -> nonneg_draws d2 ->
+  p_pc x2 = pc + Z.of_nat (length (p_taxa x1)) + Z.of_nat (length (p_taxa x2)) /\
+  p_fc x2 = fc + Z.of_nat (length xc1) + Z.of_nat (length xc2) /\
+  (forall j1 j2, (j1 < length (p_taxa x1))%nat -> (j2 < length (p_taxa x2))%nat -> nth j1 (p_grp x1) 0 < nth j2 (p_grp x2) 0).
+Proof. exact session_counters. Qed.
+Print Assumptions C01_session_counters.
+
+Example C01_session_hyps_satisfiable : nonneg_draws ex_draws /\ exists x1 x2,
+  mate P3DH ex_geno ex_xoprob meta_none [[2; 0; 1]%nat] (inl 2%nat) (inl 2%nat) 1%nat 5 3 ex_draws = Some x1 /\
+  mate P3DH ex_geno ex_xoprob meta_none [[2; 0; 1]%nat] (inl 2%nat) (inl 2%nat) 1%nat (p_pc x1) (p_fc x1) ex_draws = Some x2 /\
+  p_pc x2 = 13 /\ p_fc x2 = 5.
+Proof. split; [exact ex_nonneg | exact ex_session]. Qed.
+
+(** the regenerated mate() runs on the example below as well *)
+Example C01_kernel_hyps_satisfiable : nonneg_draws ex_draws /\
+  exists x, mate_k P3DH ex_geno ex_xoprob meta_none [[2; 0; 1]%nat] (inl 2%nat) (inl 2%nat) 1%nat 5 3 ex_draws = Some x /\ length (p_taxa x) = 4%nat.
+Proof. split; [exact ex_nonneg | exact ex_kernel_runs]. Qed.
 
 (** non-vacuity: a 3-taxa, 5-marker population (alleles incl. -128/127, xoprob incl. exact 0 and 1/2), a three-way DH cross with
     two matings, two progeny each and one selfing generation: the hypotheses hold, four progeny are produced from seven
